@@ -3,6 +3,7 @@ use crate::known::Finding;
 use serde_json::Value;
 use std::collections::BTreeSet;
 
+pub mod c19;
 pub mod c21;
 pub mod c22;
 pub mod c23;
@@ -57,6 +58,7 @@ pub struct PropInfo {
 pub fn registry() -> Vec<PropInfo> {
     let mut v = vec![];
     v.extend(hist::props());
+    v.extend(c19::props());
     v.extend(c21::props());
     v.extend(c22::props());
     v.extend(c23::props());
